@@ -1620,6 +1620,9 @@ func (g Gateway) SubscribeToEvents(in *hydrapb.SubscribeToEventsRequest, eventSe
 	// Get the server context
 	hydraInterface := g.ZeusInterface.GetHydra()
 
+	// serialises SendMsg on this subscriber's stream (see the callback)
+	var sendMu sync.Mutex
+
 	eventCallbackFunction := func(event *swamp.Event) {
 
 		if event == nil {
@@ -1669,15 +1672,20 @@ func (g Gateway) SubscribeToEvents(in *hydrapb.SubscribeToEventsRequest, eventSe
 
 		}
 
-		// send the message to the client
-		if sendErr := eventServer.SendMsg(&hydrapb.SubscribeToEventsResponse{
+		// send the message to the client. This callback runs on the goroutine of whichever writer
+		// changed a record, and writers of different records run in parallel: gRPC does not allow
+		// SendMsg to be called on one stream from several goroutines at once, so senders take turns.
+		sendMu.Lock()
+		sendErr := eventServer.SendMsg(&hydrapb.SubscribeToEventsResponse{
 			SwampName:       eventSwampName,
 			Treasure:        convertedTreasure,
 			Status:          convertedStatusType,
 			OldTreasure:     convertedOldTreasure,
 			DeletedTreasure: convertedDeletedTreasure,
 			EventTime:       convertedEventTime,
-		}); sendErr != nil {
+		})
+		sendMu.Unlock()
+		if sendErr != nil {
 			slog.Error("failed to send the event to the client",
 				"error", sendErr.Error(),
 				"swamp_name", eventSwampName)
